@@ -367,7 +367,7 @@ func full(a *hx.Args, in *input, res *hx.Result) {
 	leavesTotal := 0
 	t0 := time.Now()
 	for k := 0; k < nkeys; k++ {
-		if thorough && k >= 4 && time.Since(t0) > 22*time.Minute {
+		if thorough && k >= 4 && time.Since(t0) > 17*time.Minute {
 			res.Notes["keys_skipped_for_time"] = nkeys - k
 			break
 		}
